@@ -3,15 +3,9 @@ import MpVerif.C05.Lemmas
 namespace MpVerif.C05
 open MpVerif.C14
 
-def decValAcc (acc : Nat) (ds : Bytes) : Nat := ds.foldl (fun a c => 10 * a + (c - 48)) acc
-
 theorem decValAcc_nil (acc : Nat) : decValAcc acc [] = acc := rfl
 theorem decValAcc_cons (acc c : Nat) (cs : Bytes) : decValAcc acc (c :: cs) = decValAcc (10 * acc + (c - 48)) cs := by
   unfold decValAcc; rw [List.foldl_cons]
-
-def decVal (ds : Bytes) : Nat := decValAcc 0 ds
-
-def AllDigits (ds : Bytes) : Prop := ∀ c ∈ ds, isDigit c = true
 
 theorem isDigit_iff (c : Nat) : isDigit c = true ↔ 48 ≤ c ∧ c ≤ 57 := by
   simp [isDigit]
